@@ -628,21 +628,31 @@ func c02SymHeights(pd *paymentDescriptor) {
 //	4: remote [Settle of b0]     local [Add b0]
 //	5: remote [Add a0, Fail of b0]  local [Add b0, FeeUpdate]
 //	6: remote [FeeUpdate]        local [FeeUpdate]
-func c02Recv(scenarios int) {
+func c02Recv(scenarios int, deep bool) {
 	c02Config()
 	r := vU64("remoteTailHeight")
 	l := vU64("localTailHeight")
 	// Domain: r+1 does not wrap (48-bit commitment numbers).
 	vAssume(r < ^uint64(0))
-	ct := c02ChanTypes[vChoice("chanType", len(c02ChanTypes))]
 	op := c02Outpoint()
 	chanID := c02RefChanID(op)
 	scid := lnwire.NewShortChanIDFromInt(vU64("scid"))
 
 	// outcome class: 0 = everything accepted, 1 = shachain store rejects the
 	// secret, 2 = secret does not match the current point, 3 = channel store
-	// write fails, 4 = no pending commitment stored, 5 = restored channel
+	// write fails, 4 = no pending commitment stored, 5 = restored channel.
+	// Thorough: every class x every scenario x every channel type. Quick: the
+	// refusing classes run on the largest scenario only and the channel type
+	// (which the unit consults for the taproot bit only) is tied to the scenario.
 	mode := vChoice("mode", 6)
+	scenario := scenarios - 2
+	if mode == 0 || deep {
+		scenario = vChoice("scenario", scenarios)
+	}
+	ct := c02ChanTypes[scenario%len(c02ChanTypes)]
+	if deep {
+		ct = c02ChanTypes[vChoice("chanType", len(c02ChanTypes))]
+	}
 
 	store := &c02Store{advFails: mode == 3, hasDiff: mode != 4}
 	store.newRemote = chanstate.ChannelCommitment{
@@ -705,7 +715,6 @@ func c02Recv(scenarios int) {
 			log.restoreUpdate(pd)
 		}
 	}
-	scenario := vChoice("scenario", scenarios)
 	switch scenario {
 	case 1:
 		put(remoteLog, &rEntries, c02KAdd, 0)
@@ -837,4 +846,5 @@ func c02Recv(scenarios int) {
 	}
 }
 
-func VerifC02RecvRevocation() { c02Recv(7) }
+func VerifC02RecvRevocation()     { c02Recv(7, false) }
+func VerifC02RecvRevocationDeep() { c02Recv(7, true) }
